@@ -68,12 +68,18 @@ def _history(draw, knob):
             steps.append({"op": "edit", "ir": draw(c09._ir())})
         else:
             k = draw(st.sampled_from(KEYS))
-            allowed = [s_ for s_ in project.STATES if not (base["method"] and k == "function" and s_ in ("missing", "empty", "absent"))]
+            allowed = [s_ for s_ in project.STATES if not (base["method"] and k == "function" and s_ in ("missing", "empty", "absent", "placeholder"))
+                       and not (s_ == "placeholder" and k != "class")]  # (function-kind placeholders: finding KF-N06 of C09)
             steps.append({"op": "touch", "kind": k, "state": draw(st.sampled_from(allowed)), "ir": draw(c09._ir())})
     if steps[-1]["op"] != "sync":
         steps.append({"op": "sync", "truth": None})
     base["steps"] = steps
     base["path_style"] = draw(st.sampled_from(("abs", "abs", "relative", "symlink")))
+    # the file that holds the truth may also be named as the file of ANOTHER kind (one module with the class and the
+    # function): it is still the truth file and must never be written
+    others = [k for k in KEYS if k != base["truth"]]
+    if knob is None and not base["method"] and draw(st.integers(0, 5)) == 0:
+        base["shared"] = draw(st.sampled_from(others))
     return base
 
 
@@ -84,7 +90,9 @@ def strategy(mode, knob=None):
 def valid(case):
     try:
         base = dict({k: case[k] for k in ("ir", "stale_ir", "truth", "states", "method")}, nested=case.get("nested", False), cli=case.get("cli", False))  # (no mirror file here)
-        if not c09.valid(base) or set(case) - {"nested", "cli", "mirror"} != {"ir", "stale_ir", "truth", "states", "method", "steps", "path_style"}:
+        if not c09.valid(base) or set(case) - {"nested", "cli", "mirror", "shared"} != {"ir", "stale_ir", "truth", "states", "method", "steps", "path_style"}:
+            return False
+        if case.get("shared") is not None and (case["shared"] not in KEYS or case["shared"] == case["truth"]):
             return False
         if case["path_style"] not in ("abs", "relative", "symlink"):
             return False
@@ -138,6 +146,14 @@ def run_case(case):
         method = case["method"]
         given = [case["truth"]] + [k for k, v in case["states"].items() if v is not None]
         truth = case["truth"]
+        shared = case.get("shared")
+        if shared:
+            tags.add("truth_file_shared")
+            if os.path.exists(paths[shared]):
+                os.remove(paths[shared])
+            paths = dict(paths, **{shared: paths[truth]})
+            if shared not in given:
+                given.append(shared)
         last_sync_sig, dirty = None, True
         for i, s_ in enumerate(steps):
             if s_["op"] == "edit":
@@ -154,7 +170,7 @@ def run_case(case):
                 continue
             if s_["op"] == "touch":
                 k = s_["kind"]
-                if k == truth or k not in given:
+                if k == truth or k not in given or k == shared:
                     continue
                 try:
                     st_ = s_["state"]
@@ -168,7 +184,7 @@ def run_case(case):
                 continue
             # ---- sync
             new_truth = s_.get("truth") or truth
-            if new_truth not in given or not os.path.isfile(paths[new_truth]):
+            if new_truth not in given or not os.path.isfile(paths[new_truth]) or shared:
                 new_truth = truth
             try:
                 defs, _ = project.find_defs(open(paths[new_truth]).read(), new_truth, method, case.get("nested", False))
